@@ -261,12 +261,21 @@ inline void encode_policy(const Node& n, Policy& p, std::string& out, bool allow
             extra_store.reserve(8);
             if (allow_unknown) {
                 while (extra_store.size() < 6 && p.hit(p.unknown)) {
-                    // unknown integer key, far away from every key RFC 8618 / this library assigns
-                    int64_t key = p.rng.coin() ? (int64_t)p.rng.range(40, 100000) : -(int64_t)p.rng.range(40, 100000);
+                    // unknown integer key, far away from every key RFC 8618 / this library assigns; one in four comes
+                    // from the far ends of what CBOR can express (unsigned up to 2^64-1, negative down to -2^64), where
+                    // a reader that narrows the key to 64 signed bits would mistake it for a small, known key
+                    Node keyn;
+                    unsigned sel = (unsigned)p.rng.below(8);
+                    if (sel == 0) keyn = Node::uint_(0xffffffffffffffffULL - p.rng.below(40));
+                    else if (sel == 1) keyn = Node::nint_(0xffffffffffffffffULL - p.rng.below(40));
+                    else {
+                        int64_t key = p.rng.coin() ? (int64_t)p.rng.range(40, 100000) : -(int64_t)p.rng.range(40, 100000);
+                        keyn = Node::int_(key);
+                    }
                     bool dup = false;
-                    for (size_t i = 0; i < extra_store.size(); i += 2) if (extra_store[i].ival() == key) dup = true;
+                    for (size_t i = 0; i < extra_store.size(); i += 2) if (extra_store[i].major == keyn.major && extra_store[i].arg == keyn.arg) dup = true;
                     if (dup) break;
-                    extra_store.push_back(Node::int_(key));
+                    extra_store.push_back(keyn);
                     extra_store.push_back(random_value(p.rng, 0));
                     p.n_unknown++;
                 }
